@@ -169,18 +169,11 @@ Definition do_act (cw : option handle) (a : act) (w : world) : world :=
 Definition do_acts (cw : option handle) (l : list act) (w : world) : world :=
   fold_left (fun w a => do_act cw a w) l w.
 
-(** injection lookup *)
-Definition ipoint_eqb (a b : ipoint) : bool :=
-  match a, b with IReg, IReg | IMid, IMid | IExit, IExit => true | _, _ => false end.
-
-Fixpoint find_inj (p : ipoint) (k : nat) (l : list (ipoint * nat * list act)) : list act :=
-  match l with
-  | [] => []
-  | (p', k', a) :: t => if ipoint_eqb p p' && Nat.eqb k k' then a ++ find_inj p k t else find_inj p k t
+Definition run_inj (p : ipoint) (k : nat) (sl : option (nat * nat)) (w : world) : world :=
+  match find_inj p k (inj_pts (winj w)) with
+  | [] => w
+  | acts => do_acts None acts (emit (EInj p k sl) w)
   end.
-
-Definition run_inj (p : ipoint) (k : nat) (w : world) : world :=
-  do_acts None (find_inj p k (inj_pts (winj w))) w.
 
 Definition forced_inc (k : nat) (w : world) : bool :=
   existsb (Nat.eqb k) (inj_inc (winj w)).
